@@ -1319,8 +1319,16 @@ def rf71(run, units=('mir',), only=None):
                             break
                     if bad is not None or stop:
                         continue
-                    if B.cond is not None and x in _vars_in(B.cond):
-                        continue   # x is tested: both outcomes are the author's decision
+                    if B.cond is not None and x in _vars_in(B.cond) and len(B.succs) == 2:
+                        ct = F.src(F.strip(B.cond)).replace(' ', '').strip('()')
+                        if ct in ('%s!=0' % x, '%s!=NULL' % x, x):
+                            if B.succs[1] is not None:
+                                work.append(B.succs[1])     # x is still NULL on the false edge
+                            continue
+                        if ct in ('%s==0' % x, '%s==NULL' % x, '!%s' % x):
+                            if B.succs[0] is not None:
+                                work.append(B.succs[0])
+                            continue
                     work.extend(cfg.live_succs(b))
                 n += 1
                 run.functions_analysed.add((u, f.name))
